@@ -54,7 +54,7 @@ struct ClmRoundtrip : Family {
 			std::string nm;
 			for (int t = 0; t < 50; ++t) {
 				nm = randName(r, 1, 8, false);
-				if (r.chance(1, 4)) nm[r.below(nm.size())] = '_';
+				if (r.chance(1, 4) && nm.size() > 1) nm[1 + r.below(nm.size() - 1)] = '_'; // never first: harness-owned paths start with '_'
 				if (!names.empty() && r.chance(1, 3)) { const std::string& o = names[r.below(names.size())]; nm = (o.substr(0, 1 + r.below(o.size())) + randName(r, 1, 3, false)).substr(0, 8); }
 				bool clash = false;
 				for (auto& o : names) if (ref::nameEqualNoCase(o, nm)) clash = true;
